@@ -114,16 +114,56 @@ def r2(ctx):
         if not fail_edges or not writes:
             raise AnchorError("%s: table filter test or bucket writes not found" % fn)
 
+        # the table filter may be skipped only for an unchanged value (or when no filter is configured)
+        pass_true = []
+        for bi, t, e in g.switches():
+            inner, neg = e, False
+            while inner[0] == "un" and inner[1] == "Not":
+                inner, neg = inner[2], not neg
+            if inner[0] == "call" and inner[1].endswith("kbucket::filter::Filter::filter") and "table_filter" in fmt_short(inner[2][0]):
+                f, tr = g.bool_edges(bi)
+                pass_true.append((bi, f if neg else tr))
+        none_edges = []
+        for bi, t, e in g.switches():
+            if e[0] == "discr" and fmt_short(e[1]) == "self.table_filter":
+                none_edges += [(bi, s_) for s_ in t.succs() if s_ not in [tb for v, tb in t.vals if v == 1]]
+        unchanged = []
+        for bi, t, e in g.switches():
+            inner, neg = e, False
+            while inner[0] == "un" and inner[1] == "Not":
+                inner, neg = inner[2], not neg
+            alts = inner[1] if inner[0] == "phi" else (inner,)
+            some, good = False, True
+            for a in alts:
+                if const_int_of(a) == 0:
+                    continue
+                c = comparison(a)
+                if c and c[0] == "==" and {fmt_short(c[1]).split(".")[-1], fmt_short(c[2])} == {"value"} and \
+                        any(x[0] == "call" and short(x[1]).endswith("KBucket::get") for x in walk(a)):
+                    some = True
+                else:
+                    good = False
+            if some and good:
+                f, tr = g.bool_edges(bi)
+                unchanged.append((bi, f if neg else tr))
+        okset = set(pass_true + none_edges + unchanged)
+
         def transfer(bidx, st):
-            vals, failed = st
+            vals, failed, okk = st
             vals = fe.apply_stmts(bidx, vals)
             t = b.blocks[bidx].term
             if t.k == "ret":
-                yield None, (vals, failed)
+                yield None, (vals, failed, okk)
                 return
-            for s in fe.successors(bidx, vals):
-                yield s, (vals, failed or ((bidx, s) in fail_edges))
-        states, exits, parent = propagate(b, (fe.initial(), False), transfer)
+            for s_ in fe.successors(bidx, vals):
+                yield s_, (vals, failed or ((bidx, s_) in fail_edges), okk or ((bidx, s_) in okset))
+        states, exits, parent = propagate(b, (fe.initial(), False, False), transfer)
+        for bi, t in writes:
+            bad = [st for st in states.get(bi, ()) if not st[2]]
+            rule.check(not bad, "%s: KBucket::%s only after the table filter accepted the value, the value is unchanged, or no table filter is set" % (
+                fn, t.callee().split("::")[-1]), "%s|%s-unfiltered" % (fn, t.callee().split("::")[-1]),
+                "%s can write a new value into a bucket (KBucket::%s) without the table filter having been consulted" % (fn, t.callee().split("::")[-1]),
+                loc=b.loc(t.line))
         for bi, t in writes:
             bad = [st for st in states.get(bi, ()) if st[1]]
             rule.check(not bad, "%s: KBucket::%s is not reached after the table filter refused the value" % (fn, t.callee().split("::")[-1]),
